@@ -270,7 +270,15 @@ func NewResponsePacket(cookies [][]byte, key []byte, uniqueid []byte) (pkt Packe
 	uid.ID = uniqueid
 	pkt.UniqueID = uid
 
-	lencookies := len(cookies) * (4 + len(cookies[0]))
+	// Add only as many cookies as fit: the NTP header, the unique identifier and
+	// the authenticator's header, lengths, nonce and tag are always present.
+	lencookie := 4 + (len(cookies[0])+3)&^3
+	maxcookies := (MaxPacketLen - ntpPacketLen - (4 + (len(uniqueid)+3)&^3) - (4 + 4 + 16 + 16)) / lencookie
+	if len(cookies) > maxcookies {
+		cookies = cookies[:max(maxcookies, 0)]
+	}
+
+	lencookies := len(cookies) * lencookie
 	buf := make([]byte, lencookies)
 	var err error
 	pos := 0
